@@ -442,3 +442,122 @@ def execute(x, keep=0):
     ev["_classes"] = sorted(p.classes | {s for s in p.strs if s in _registry()})
     ev["_nodes"] = p.nodes
     return ev
+
+
+# ------------------------------------------------------------------ hostile inputs (own minimal writers)
+def _pdf_lit(raw: bytes) -> bytes:
+    out = bytearray(b"(")
+    for b in raw:
+        if b in b"()\\":
+            out += b"\\" + bytes([b])
+        elif b < 32 or b > 126:
+            out += b"\\%03o" % b
+        else:
+            out.append(b)
+    return bytes(out + b")")
+
+
+def hostile_pdf(alt: bytes, title: bytes, key: bytes = b"/Alt") -> bytes:
+    """One-page PDF with one image XObject (not in marked content) whose /Alt (or /Title, /Caption, /TU) is
+    the given raw PDF string, and an Info dictionary whose /Title /Author /Subject carry `title`."""
+    pixels = bytes([255, 0, 0] * 4)
+    content = b"q 20 0 0 20 72 700 cm /Im0 Do Q\nBT /F1 12 Tf 72 650 Td (hello figure) Tj ET\n"
+    objs = [b"<< /Type /Catalog /Pages 2 0 R >>",
+            b"<< /Type /Pages /Kids [3 0 R] /Count 1 >>",
+            b"<< /Type /Page /Parent 2 0 R /MediaBox [0 0 612 792] /Contents 4 0 R "
+            b"/Resources << /Font << /F1 5 0 R >> /XObject << /Im0 6 0 R >> >> >>",
+            b"<< /Length %d >>\nstream\n" % len(content) + content + b"endstream",
+            b"<< /Type /Font /Subtype /Type1 /BaseFont /Helvetica /Encoding /WinAnsiEncoding >>",
+            b"<< /Type /XObject /Subtype /Image /Width 2 /Height 2 /ColorSpace /DeviceRGB /BitsPerComponent 8 "
+            + key + b" " + _pdf_lit(alt) + b" /Length %d >>\nstream\n" % len(pixels) + pixels + b"\nendstream",
+            b"<< /Title " + _pdf_lit(title) + b" /Author " + _pdf_lit(title) + b" /Subject " + _pdf_lit(title)
+            + b" /Keywords " + _pdf_lit(title) + b" >>"]
+    out = bytearray(b"%PDF-1.4\n%\xe2\xe3\xcf\xd3\n")
+    offs = []
+    for i, body in enumerate(objs, start=1):
+        offs.append(len(out))
+        out += b"%d 0 obj\n" % i + body + b"\nendobj\n"
+    xref = len(out)
+    out += b"xref\n0 %d\n0000000000 65535 f \n" % (len(objs) + 1)
+    for o in offs:
+        out += b"%010d 00000 n \n" % o
+    out += b"trailer\n<< /Size %d /Root 1 0 R /Info 7 0 R >>\nstartxref\n%d\n%%%%EOF\n" % (len(objs) + 1, xref)
+    return bytes(out)
+
+
+HOSTILE_PDF_STRINGS = {
+    "ascii": b"A plain figure",
+    "del-7f": b"Fig \x7f one",                      # bytes PDFDocEncoding has no character for
+    "c1-9f": b"Fig \x9f two",
+    "mixed-7f-9f-ad": b"\x7f\x9f\xad",
+    "latin1": b"Abb. \xe4\xf6\xfc \xdf",
+    "utf16-bom": b"\xfe\xff" + "Bild ä 漢".encode("utf-16-be"),
+    "utf16-lone-surrogate": b"\xfe\xff" + "Fig ".encode("utf-16-be") + b"\xd8\x3d" + " x".encode("utf-16-be"),
+    "utf8-bom": b"\xef\xbb\xbfBild \xc3\xa4",
+    "odd-utf16": b"\xfe\xff\x00A\x00",              # BOM but an odd number of bytes
+}
+
+
+def hostile_mail(variant: str, n: int = 0) -> bytes:
+    """RFC 822 message in which EVERY header the result carries holds non-ASCII: as raw 8-bit UTF-8 bytes
+    (RFC 6532 style), as raw Latin-1 bytes, or as RFC 2047 encoded words."""
+    def w(text):
+        if variant == "raw-utf8":
+            return text.encode("utf-8")
+        if variant == "raw-latin1":
+            return text.encode("latin-1", "replace")
+        if variant == "rfc2047":
+            out = []
+            for tok in text.split(" "):
+                if tok.isascii():
+                    out.append(tok.encode())
+                else:
+                    out.append(b"=?utf-8?B?" + base64.b64encode(tok.encode("utf-8")) + b"?=")
+            return b" ".join(out)
+        return text.encode("ascii", "replace")
+    lines = [
+        b"From: " + w("Jürgen Müller") + b" <juergen@" + w("müller") + b".example>",
+        b"To: " + w("Zoë Café") + b" <zoe@example.org>, " + w("René") + b" <rene@example.org>",
+        b"Cc: " + w("Åsa Øst") + b" <asa@example.org>",
+        b"Bcc: " + w("Bébé") + b" <bebe@example.org>",
+        b"Reply-To: " + w("Antwort Müller") + b" <antwort@" + w("müller") + b".example>",
+        b"Subject: " + w("Grüße aus Köln à bientôt") + b" %d" % n,
+        b"Date: Mon, 01 Jan 2024 10:0%d:00 +0000 (" % (n % 10) + w("Mitteleuropäische Zeit") + b")",
+        b"Message-ID: <nachricht-%d@" % n + w("müller") + b".example>",
+        b"In-Reply-To: <antwort-%d@" % n + w("müller") + b".example>",
+        b"References: <erste-%d@" % n + w("müller") + b".example> <zweite@" + w("köln") + b".example>",
+        b"MIME-Version: 1.0",
+        b"Content-Type: text/plain; charset=utf-8",
+        b"Content-Transfer-Encoding: 8bit",
+        b"",
+        "Körper der Nachricht – body 漢字".encode("utf-8"),
+        b"",
+    ]
+    return b"\r\n".join(lines)
+
+
+def hostile_mbox(variants) -> bytes:
+    out = b""
+    for n, var in enumerate(variants):
+        out += b"From sender@example.org Mon Jan  1 10:00:00 2024\n" + hostile_mail(var, n).replace(b"\r\n", b"\n") + b"\n"
+    return out
+
+
+def payload_sizes(thorough: bool):
+    """Payload lengths around every plausible chunk boundary, and every residue mod 3."""
+    mib = 1024 * 1024
+    sizes = {0, 1, 2, 3, 4, 5, 57, 58, 59, 3 * 1024, 64 * 1024 - 1, 64 * 1024, 64 * 1024 + 1}
+    for b in ((1, 4) if not thorough else (1, 4, 8, 16)):
+        sizes |= {b * mib + d for d in (-2, -1, 0, 1, 2)}
+    sizes |= {8 * mib + 1, 16 * mib + 2} if not thorough else {32 * mib + 1, 3 * 5 * mib}
+    return sorted(sizes)
+
+
+def payload_instances(sizes, seed):
+    """Dataclass instances built directly (no documents): one bytes-typed and one BytesIO-typed payload per size."""
+    from sharepoint2text.parsing.extractors import data_types as dt
+    for n in sizes:
+        data = random.Random(f"{seed}:{n}").randbytes(n)
+        yield f"PdfImage.data = {n} bytes", dt.PdfImage(index=1, name="big", data=data, format="raw")
+        yield f"DocxImage.data = BytesIO of {n} bytes", dt.DocxImage(rel_id="r1", filename="big.bin", data=io.BytesIO(data),
+                                                                      size_bytes=n)
